@@ -147,6 +147,43 @@ def len_bounds(x, depth=0):
     return out
 
 
+def buf_root(x, depth=0):
+    """the value a buffer expression is a view of (peeling reborrows, derefs and slicing)"""
+    while isinstance(x, tuple) and x and depth < 60:
+        depth += 1
+        k = x[0]
+        if k in ("ref*", "deref", "ref", "downcast", "field", "unwrap", "payload", "constref"):
+            x = x[1]
+        elif k == "refined":
+            x = x[3]
+        elif k == "call" and x[2] and re.search(r"(index(_mut)?|deref(_mut)?|as_mut_slice|as_slice|as_mut|borrow_mut|by_ref)$", x[1]):
+            x = x[2][0]
+        else:
+            break
+    return x
+
+
+def cond_bounds(p, buf, upto=None):
+    """upper bounds on the length of `buf` that the path has established by comparison: `buf.len() < T` taken, `buf.len() >= T` refused"""
+    out = []
+    root = repr(buf_root(buf))
+    for bb, c in p.conds:
+        if not c or c[0] != "scalar" or not c[1] or c[1][0] != "binop" or c[1][1] not in CMP or not isinstance(c[2], bool):
+            continue
+        op, a, b = c[1][1], c[1][2], c[1][3]
+        def is_len_of_buf(x):
+            if x and x[0] == "call" and re.search(r"::len$", x[1]) and x[2]:
+                return repr(buf_root(x[2][0])) == root
+            if x and x[0] == "unop" and x[1] == "PtrMetadata":
+                return repr(buf_root(x[2])) == root
+            return False
+        if is_len_of_buf(a) and ((op in ("Lt", "Le") and c[2]) or (op in ("Ge", "Gt") and not c[2])):
+            out.append(b)
+        if is_len_of_buf(b) and ((op in ("Gt", "Ge") and c[2]) or (op in ("Le", "Lt") and not c[2])):
+            out.append(a)
+    return out
+
+
 def at_most(b, owed):
     if norm(linear(b)) == owed:
         return True
@@ -224,7 +261,7 @@ def owed_rules(ctx, rule, adt, size_key, rules=None):
             n_reads += 1
             owed = owed_before(rs, k)
             buf = e[8][1] if len(e) > 8 and e[8] and len(e[8]) > 1 else None
-            bs = len_bounds(buf) if buf is not None else []
+            bs = (len_bounds(buf) + cond_bounds(p, buf)) if buf is not None else []
             if not any(at_most(b, owed) for b in bs):
                 bad_b.append("read #%d asks for %s bytes while %s are owed" % (k + 1, " / ".join(symex.sym_str(b)[:60] for b in bs) or "an unbounded number of", show(owed)))
         if p.end[0] == "return" and rs:
@@ -330,7 +367,7 @@ def latch_rule(ctx, rule):
             return bool(ps) and all(reads_of(p) for p in ps)
         base = {(1, "*", "." + k): v for k, v in init.items()}
         ok0 = drop_reads(base)
-        if not ok0 and any(x["ty"] == "usize" for x in a["variants"][0]["fields"]):
+        if not ok0 and shared.find_slot_paths(facts, aid, r"^usize$"):
             n -= 1
             continue        # whether this destructor reads is decided by a byte counter, not by a latch (see the `owed` rules)
         ctx.ob(rule, "%s|fresh-reader-drains" % aid, "a reader that was never read from discards its body when dropped", ok0, where)
